@@ -1,0 +1,25 @@
+//go:build verif
+
+package implementation
+
+// Contracts checked by /verif (gvc). This file contains comments only and is compiled only with -tags verif.
+//
+// Property C10: a locked amount is released only to the entitled party, not before its lock allows, and never twice.
+// Every method below is also held to the frame of embedded.Method.ReceiveBlock (C01): contract storage only.
+
+//@ spec stg(context vm_context.AccountVmContext) db.DB = iface("db.DB", context.storage)
+
+// ---- stake -------------------------------------------------------------------------------------------------------------
+// Cancel: pays exactly the recorded amount of the entry stored under (id, sender) to the sender, only once the frontier
+// momentum's time has reached the entry's expiration, and zeroes the entry in the same call.
+//@ func CancelStakeMethod.ReceiveBlock(p, context, sendBlock) -> (descendants, err)
+//@   requires p != nil && sendBlock != nil && sendBlock.Amount != nil
+//@   ensures[one-payment] err == nil ==> len(descendants) == 1 && descendants[0] != nil && descendants[0].Amount != nil
+//@   ensures[to-the-depositor] err == nil ==> descendants[0].ToAddress == sendBlock.Address && descendants[0].Address == types.StakeContract
+//@   ensures[znn] err == nil ==> descendants[0].TokenStandard == types.ZnnTokenStandard && descendants[0].BlockType == nom.BlockTypeContractSend
+//@   ensures[nothing-on-error] err != nil ==> len(descendants) == 0 && stg(context).stakeAmt == old(stg(context).stakeAmt) && stg(context).stakeHas == old(stg(context).stakeHas)
+//@   ensures-local[entry-of-sender] err == nil ==> old(stg(context).stakeHas[deref(id)][sendBlock.Address])
+//@   ensures-local[exact-amount] err == nil ==> val(descendants[0].Amount) == old(stg(context).stakeAmt[deref(id)][sendBlock.Address])
+//@   ensures-local[not-before-expiry] err == nil ==> old(stg(context).stakeExp[deref(id)][sendBlock.Address]) <= context.now
+//@   ensures-local[never-twice] err == nil ==> stg(context).stakeAmt == store(old(stg(context).stakeAmt), deref(id), store(old(stg(context).stakeAmt[deref(id)]), sendBlock.Address, 0))
+//@   modifies sendBlock.Data, MF:common/db.DB.stakeHas, MF:common/db.DB.stakeAmt, MF:common/db.DB.stakeExp
